@@ -400,8 +400,8 @@ Fixpoint digits_loop (l:list Z) (acc:Z) (prev_us:bool) : option (Z * list Z) :=
   | [] => if prev_us then None else Some (acc, [])
   end.
 
-(* int(b) for a bytes object, base 10; None = ValueError *)
-Definition py_int (l:list Z) : option Z :=
+(* int(b) for a bytes object, base 10, without CPython's limit on the number of digits; None = ValueError *)
+Definition py_int_nolimit (l:list Z) : option Z :=
   let l1 := lstrip l in
   let '(neg, l2) := match l1 with
                     | 43 :: t => (false, t)
@@ -417,6 +417,18 @@ Definition py_int (l:list Z) : option Z :=
       end
     else None
   | [] => None
+  end.
+
+(* int(b), CPython >= 3.11 (also reached through numpy's cast of an 'S' element to an integer dtype):
+   a numeral with more than sys.get_int_max_str_digits() = 4300 digit characters (leading zeros count,
+   underscores, sign and blanks do not) is refused with ValueError.  In an accepted numeral every digit
+   character of the text belongs to the digit run, so the digits are counted over the whole text. *)
+Definition INT_MAX_STR_DIGITS : Z := 4300.
+Definition count_digits (l:list Z) : Z := len (filter is_digit l).
+Definition py_int (l:list Z) : option Z :=
+  match py_int_nolimit l with
+  | Some v => if INT_MAX_STR_DIGITS <? count_digits l then None else Some v
+  | None => None
   end.
 
 (* ------------------------------------------------------------------ transform_int / transform_float *)
